@@ -34,6 +34,7 @@ import (
 	"strconv"
 	"strings"
 	"sync"
+	"syscall"
 
 	"github.com/bufbuild/verifharness/internal/hx"
 )
@@ -534,8 +535,15 @@ type procResult struct {
 	stdout, stderr string
 }
 
-func runBuf(bufBin, dir string, args ...string) procResult {
+func runBuf(bufBin, dir string, args ...string) procResult { return runBufAs(-1, bufBin, dir, args...) }
+
+// runBufAs runs buf under another user id (uid >= 0; only possible when the harness is root): the
+// way to meet a file that cannot be opened for writing, which root never does.
+func runBufAs(uid int, bufBin, dir string, args ...string) procResult {
 	cmd := exec.Command(bufBin, args...)
+	if uid >= 0 {
+		cmd.SysProcAttr = &syscall.SysProcAttr{Credential: &syscall.Credential{Uid: uint32(uid), Gid: uint32(uid)}}
+	}
 	cmd.Dir = dir
 	cmd.Env = append(os.Environ(), "BUF_CACHE_DIR="+filepath.Join(filepath.Dir(dir), ".cache"), "HOME="+filepath.Dir(dir), "NO_COLOR=1")
 	var so, se bytes.Buffer
